@@ -125,7 +125,8 @@ SPEC = {
 }
 
 OPS = ['setitem', 'setattr', 'delitem', 'delattr', 'pop', 'popitem', 'update-dict', 'update-kw', 'setdefault', 'clear',
-       'ior', 'copy-mutate', 'update-2keys', 'ior-2keys']
+       'ior', 'copy-mutate', 'update-2keys', 'ior-2keys', 'ior-instance', 'update-instance']
+MULTI = ('update-2keys', 'ior-2keys', 'ior-instance', 'update-instance')
 
 
 def ok_int(v):
@@ -243,6 +244,14 @@ def apply(V, name, inst, op, tag=''):
         if op in ('popitem', 'clear'):
             getattr(inst, op)()
             return target, False, None, None
+        if op in ('ior-instance', 'update-instance'):
+            # the operand is another valid instance of the same class (a multi-key update: may be applied partially)
+            other = build(V, name, tag + 'other_')
+            if op == 'ior-instance':
+                inst |= other
+            else:
+                inst.update(other)
+            return target, False, 'instance', dict(dict.items(other))
         key = V.pick(tag + 'key', keys)
         if op in ('update-2keys', 'ior-2keys'):
             # a multi-key update may be applied partially when a later key is rejected, but whatever it leaves behind
@@ -373,7 +382,7 @@ def _step(V, name, op):
     det = lambda: '%s state=%r attrs=%r ; %s(key=%r, value=%r) %s ; after: %r attrs=%r%s' % (
         name, before[0], before[1], op, key, v, 'raised %s' % type(raised).__name__ if raised else 'ok', after[0], after[1],
         '' if target is inst else ' ; copy: %r attrs=%r' % snapshot(target))
-    if raised and op not in ('update-2keys', 'ior-2keys'):
+    if raised and op not in MULTI:
         V.check(after == before, 'step:raised-but-changed', det)
         if target is not inst:
             V.check(snapshot(target)[0] == before[0] or True, 'step:copy', det)
@@ -390,7 +399,8 @@ def _step(V, name, op):
 for _n in SPEC:
     for _op in OPS:
         ob('step/%s/%s' % (_n, _op), marks=['applied'] if _op in ('copy-mutate', 'setdefault', 'ior', 'update-dict', 'update-kw', 'setitem', 'setattr', 'update-2keys', 'ior-2keys') else [],
-           budget=(150 if '2keys' in _op else 60, 400),
+           thorough_only=(_op == 'update-instance'),
+           budget=(150 if '2keys' in _op or 'instance' in _op else 60, 400),
            bounds='%s: any valid state (presence of optional fields and conforming values solver-chosen, unbounded ints) then '
                   'one %s with key from %r and value = unbounded solver int | "5" | "x" (nested: dict forms)' % (
                       _n, _op, SPEC[_n][2]),
@@ -408,7 +418,7 @@ def _history(V, name, k):
         trace.append((op, key, v, type(raised).__name__ if raised else None))
         after = snapshot(inst)
         det = lambda: '%s history %r -> %r attrs=%r' % (name, trace, after[0], after[1])
-        if raised and op not in ('update-2keys', 'ior-2keys'):
+        if raised and op not in MULTI:
             V.check(after == before, 'history:raised-but-changed', det)
         valid(V, name, inst, 'history', det, imm, dep_changed=_dep_changed(name, raised, op, key, before))
     V.cover('done')
